@@ -117,8 +117,9 @@ _REACH = None
 
 
 def _writes(ctx, rep, cg, reach, mstate):
-    global _REACH
+    global _REACH, _CTX
     _REACH = set(reach)
+    _CTX = ctx
     _ALLOC_CACHE.clear()
     n_fun = 0
     for key in sorted(reach):
@@ -186,6 +187,9 @@ def _fresh_expr(e, caller, site=None):
         return True
     if isinstance(e, ast.Subscript) and isinstance(e.slice, ast.Slice):
         return True       # a slice of a list is a new list
+    if isinstance(e, ast.Call) and isinstance(e.func, ast.Name) and not e.args and not e.keywords \
+            and _fresh_instance_class(e.func.id):
+        return True       # an instance, made here, of a package class whose state is made per instance
     if isinstance(e, ast.Name):
         params = {a.arg for a in caller.args.args}
         if e.id in params:
@@ -210,6 +214,75 @@ def _fresh_expr(e, caller, site=None):
         vals = [a.value for a in assigns]
         return bool(vals) and all(_fresh_expr(v, caller) for v in vals if not isinstance(v, ast.Name))
     return False
+
+
+_CTX = None
+_FRESH_FACTORIES = ("dict", "list", "set", "defaultdict", "OrderedDict", "Counter", "deque")
+
+
+def _fresh_instance_class(name):
+    """A class of the package whose instances, built without arguments, share nothing: a dataclass
+    whose fields have immutable defaults or default_factory=<container type>, or a class whose
+    __init__ (no parameters but self) stores only containers created on the spot and constants;
+    no class-level container attribute."""
+    if _CTX is None:
+        return False
+    cdef = None
+    for mn, m in _CTX.model.mods.items():
+        if mn.startswith("ctparse") and name in m.classes:
+            cdef = m.classes[name]
+    if cdef is None:
+        return False
+
+    def immutable(v):
+        return isinstance(v, ast.Constant) or (isinstance(v, ast.Tuple) and all(immutable(x) for x in v.elts)) \
+            or (isinstance(v, ast.UnaryOp) and isinstance(v.operand, ast.Constant))
+    is_dc = any("dataclass" in norm(d) for d in cdef.decorator_list)
+    init = None
+    for st in cdef.body:
+        if isinstance(st, ast.FunctionDef):
+            if st.name == "__init__":
+                init = st
+            continue
+        if isinstance(st, ast.Expr) and isinstance(st.value, ast.Constant):
+            continue
+        if isinstance(st, ast.Pass):
+            continue
+        if isinstance(st, ast.AnnAssign):
+            v = st.value
+            if v is None:
+                return False          # a field without default: cannot be built without arguments
+            if immutable(v):
+                continue
+            if is_dc and isinstance(v, ast.Call) and e1.callee_name(v.func) == "field":
+                kw = {k.arg: k.value for k in v.keywords}
+                fac = kw.get("default_factory")
+                if fac is not None and isinstance(fac, ast.Name) and fac.id in _FRESH_FACTORIES:
+                    continue
+                if "default" in kw and immutable(kw["default"]):
+                    continue
+            return False
+        if isinstance(st, ast.Assign):
+            if immutable(st.value) or all(isinstance(t, ast.Name) and t.id == "__slots__" for t in st.targets):
+                continue
+            return False
+        return False
+    if cdef.bases and not all(norm(b) in ("object",) for b in cdef.bases):
+        return False
+    if init is not None:
+        if len(init.args.args) != 1 or init.args.vararg or init.args.kwarg or init.args.kwonlyargs:
+            return False
+        for st in init.body:
+            if isinstance(st, ast.Expr) and isinstance(st.value, ast.Constant):
+                continue
+            if isinstance(st, (ast.Assign, ast.AnnAssign)):
+                v = st.value
+                if v is not None and (immutable(v) or _fresh_expr(v, init)):
+                    continue
+            return False
+    elif not is_dc:
+        return False
+    return True
 
 
 def _only_fresh_arguments(cg, fi, pname):
